@@ -8,3 +8,10 @@ cargo build --release --offline
 cd /verif/loomjob
 cp /repo/Cargo.lock Cargo.lock 2>/dev/null || true
 cargo build --release --offline
+# independent copy of the WHATWG named character reference table (python stdlib)
+cd /verif && mkdir -p gen && python3 - <<'PY' || true
+import html.entities, json
+d = html.entities.html5
+assert len(d) == 2231
+json.dump({k: [ord(c) for c in v] for k, v in d.items()}, open('/verif/gen/entities.json', 'w'))
+PY
